@@ -597,9 +597,11 @@ CLAIM = {
             'step IS its rounding error): |pysum - sum x| <= u|sum x| + (1+u)((1+u)^(n-1)-1) u (n-1)(1+u)^(n-1) sum|x| (second '
             'order); then mean, deviations, squares (a hinted square within one ulp: 4u d^2 + 4 eta), sum, division: explicit '
             'bound fvar_bound on |v - popvar| at completion and for every streaming value, stddev likewise '
-            '(C12_float_formal_*). NOT proved: int items mixed with floats in the binary64 theorems (tested by the oracle against '
-            'exact rational arithmetic on every prefix with the explicit bound given in `rule`); the bounds are a-priori bounds, '
-            'not the sharpest known constants.',
+            '(C12_float_formal_*). Int items mixed with floats: under the stated magnitude assumption the run on a mixed list '
+            'equals BIT FOR BIT the run on the converted floats for sum (unconditionally), mean, min, max, variance, stddev '
+            '(C12_mixed_items_*), so the bounds carry over. NOT proved: the two-pass formal.variance on lists mixing ints and floats '
+            '(builtin sum treats an int after the first float differently) - tested by the oracle against exact rational arithmetic '
+            'on every prefix with the explicit bound given in `rule`; the bounds are a-priori bounds, not the sharpest known constants.',
     'note': 'Trusted: Coq kernel+VM incl. primitive 63-bit integers and binary64 floats (evaluation only; no '
             'C12_exact_* theorem depends on them). The C12_float_* theorems depend on '
             'standard-library axioms: FloatAxioms.{Prim2SF_valid, SF2Prim_Prim2SF, Prim2SF_SF2Prim, add_spec, abs_spec, '
